@@ -13,7 +13,7 @@ From Oras Require Import Base.Prelude Generated.GC10 Model.OciCrash Model.OciCra
 From Oras Require Model.OciGC Proofs.OciGC.
 From Oras Require Import Proofs.OciCrashGC.
 From Oras Require Import Model.OciCrashConc Proofs.OciCrashConc.
-From Oras Require Import Proofs.OciCrashOff.
+From Oras Require Import Proofs.OciCrashOff Proofs.OciCrashSync.
 
 (* For every digest/size verification function H, every iteration order of saveIndex,
    every history h of completed Push/Tag/Untag/Delete/SaveIndex operations on a freshly
@@ -377,6 +377,62 @@ Example C10_conc_example :
   exists_file (cfs c) (FBlob 1) = true /\ exists_file (cfs c) (FBlob 2) = false /\
   cdigs c = [1; 3] /\ clock c = false.
 Proof. vm_compute. repeat split; reflexivity. Qed.
+
+(* What indexLock is for.  A history alternates sequential phases (any operations, Delete and GC
+   included) and batches of concurrent Push / Tag / Untag / SaveIndex calls under any schedule
+   that lets all calls of the batch return ([phases_quiet]).  Then index.json is exactly what
+   saveIndex would write from the resolver now: no completed Tag, Untag or manifest Push is
+   missing from it, whatever the interleaving of the resolver updates, snapshots and renames
+   was (the last publisher took its snapshot after every other call's resolver update). *)
+Theorem C10_conc_quiescent_synced :
+  forall (H : list N -> N) (shuffle : nat -> list entry -> list entry),
+    (forall c l e, In e (shuffle c l) <-> In e l) ->
+    forall ps : list phase,
+      phases_quiet H shuffle src_inplace src_unlink_first init ps = true ->
+      let s := run_phases H shuffle src_inplace src_unlink_first init ps in
+      exists l, read_index (sfs s) = Some l /\ forall e, In e l <-> In e (save (stags s) (sdigs s)).
+Proof. exact conc_quiescent_synced_src. Qed.
+Print Assumptions C10_conc_quiescent_synced.
+
+(* ... and the sequential model's invariant is back at that point: after any such history, and
+   any further operations some of which were interrupted (and the store reopened), a crash at any
+   cut of any operation is Recoverable, and so is every configuration of every schedule of a
+   further batch of concurrent calls. *)
+Theorem C10_conc_phases_crash_safe :
+  forall (H : list N -> N) (shuffle : nat -> list entry -> list entry),
+    (forall c l e, In e (shuffle c l) <-> In e l) ->
+    forall (ps : list phase) (h : list hop),
+      phases_quiet H shuffle src_inplace src_unlink_first init ps = true ->
+      let s := runc H shuffle src_inplace src_unlink_first true h
+                    (run_phases H shuffle src_inplace src_unlink_first init ps) in
+      (forall o k, Recoverable H (sfs s) (crash_fs H shuffle src_inplace src_unlink_first true s o k)
+                               (sfs (run_op H shuffle src_inplace src_unlink_first true s o))) /\
+      (forall calls is,
+         let c := sched shuffle (start H s calls) is in
+         layout_ok (cfs c) /\ blob_ok H (cfs c) /\ index_ok (cfs c) /\
+         (forall d, has (sfs s) (FBlob d) -> has (cfs c) (FBlob d))).
+Proof. exact conc_phases_crash_safe_src. Qed.
+Print Assumptions C10_conc_phases_crash_safe.
+
+(* Without indexLock (the same threads, the lock ignored) the first statement is false: two Tag
+   calls, the earlier snapshot published last; both have returned, the resolver has both
+   references, index.json has one. *)
+Theorem C10_conc_refuted_without_indexlock :
+  exists (H : list N -> N) (s : st) (calls : list ccall) (is : list nat),
+    let c := sched_nolock (fun _ l => l) (start H s calls) is in
+    quietb c = true /\ In (11, 1) (ctags c) /\ read_index (cfs c) = Some [(1, Some 10)].
+Proof. exact conc_unsynced_without_indexlock. Qed.
+Print Assumptions C10_conc_refuted_without_indexlock.
+
+(* the hypothesis is satisfiable *)
+Theorem C10_conc_phases_example :
+  let ps := [PSeq [Push 1 [5] true];
+             PConc [CTag 1 10; CTag 1 11] [0; 0; 1; 1; 0; 0; 1; 1; 1; 1]%nat;
+             PSeq [Untag 10];
+             PConc [CPush 1 [6] false; CSaveIndex] [1; 0; 1; 0; 1; 0]%nat] in
+  phases_quiet (fun _ => 1) (fun _ l => l) src_inplace src_unlink_first init ps = true /\
+  read_index (sfs (run_phases (fun _ => 1) (fun _ l => l) src_inplace src_unlink_first init ps)) = Some [(1, Some 11)].
+Proof. exact phases_example. Qed.
 
 (* Nothing that a reader looks at is ever written in place: every create / truncate /
    write / chmod micro-step of every operation targets a temporary (ingest/<d>_<rnd> or
